@@ -47,6 +47,11 @@ func (c *EventCache) len() int {
 }
 
 func (c *EventCache) Add(event *Event) (added bool) {
+	if event.EventType() == EventTypeEphemeral {
+		// ephemeral events are accepted but never stored
+		return true
+	}
+
 	c.mu.Lock()
 	defer c.mu.Unlock()
 
